@@ -111,14 +111,14 @@ PROPS = {
     "C09": {
         "level": "proof",
         "lean_modules": ["RaftVerif.Properties.C09"],
-        "engines": [E4("churn", 60, 500), E4D("S3-lost-removal,S4-membership-two-apart"), E3_EL],
+        "engines": [E4("churn", 60, 500), E4("snapmember", 20, 300), E4D("S3-lost-removal,S4-membership-two-apart"), E3_EL],
         "explanation": "Machine-checked for every node state: non-voters never count (hasQuorum = strict majority of voters; the commit rule counts voters only; a non-voter never campaigns; no vote request for or by a non-voter; non-voter replies confirm nothing), quorums of one configuration intersect. The cluster-level statement is FALSE of this code (known findings S3, S4; Lean witness C09_counterexample_removal_not_pending): both are replayed on the real code as directed schedules and reported as KNOWN-FINDING; violations with another signature (e.g. safety broken while all nodes are at most one configuration apart) are reported as violations. Search: " + CLUSTER_NOTE + " with random add-non-voter/promote/remove requests.",
         "assumptions": ["known findings S3, S4 (see known_findings.json)"],
     },
     "C10": {
         "level": "proof",
         "lean_modules": ["RaftVerif.Properties.C10"],
-        "engines": [E4("snap", 40, 400), E4("crash", 30, 300), E4D("S9-snapshot-overlaps-apply,S20-snapshot-chunk-mixing,S20-mixed-chunks-unparsable,snapshot-under-pending-membership-change")],
+        "engines": [E4("snap", 40, 400), E4("crash", 30, 300), E4("snapmember", 20, 300), E4D("S9-snapshot-overlaps-apply,S20-snapshot-chunk-mixing,S20-mixed-chunks-unparsable,snapshot-under-pending-membership-change")],
         "explanation": "PARTIAL proof. Machine-checked on the model (Model/Snapshot.lean, Properties/C10.lean): the apply step keeps 'state machine = fold of exactly the operation entries of the log up to the applied index' (configuration and no-op entries contribute nothing, every operation entry exactly once, in order); a snapshot whose label and content are read in one step is exact; the label is the applied index and the term of that entry. The real takeSnapshot reads the label and the content in two steps with the apply loop free to run in between: the property is FALSE of the code there (Lean witness C10_counterexample_apply_between_label_and_content; known finding S9, replayed on the real code as a directed schedule) and for snapshots received with mixed chunks (S20). Search and tie: " + CLUSTER_NOTE + "; every snapshot file that ever becomes visible on any node or crash image is parsed (the recording state machine serialises the list of applied indices with a hash chain) and compared with the committed sequence up to its label; violations with another pattern than the two known ones are reported.",
         "assumptions": ["known findings S9 (content-beyond-label) and S20 (content-behind-label), see known_findings.json",
                         "the state machine is the harness's recording machine (deterministic, serialises its full history)"],
